@@ -20,7 +20,7 @@ OFF_MAX = 64800
 
 META = {
     "property": "C07",
-    "proof_modules": ["PyodaProofs.C07", "PyodaProofs.C07b", "PyodaProofs.C07Stepped", "PyodaProofs.C07Reformat", "PyodaProofs.C07Instances"],
+    "proof_modules": ["PyodaProofs.C07", "PyodaProofs.C07b", "PyodaProofs.C07Stepped", "PyodaProofs.C07Reformat", "PyodaProofs.C07Instances", "PyodaProofs.C07DateTime"],
     "drivers": ["drv_text"],
     "theorems": [
         "Pyoda.C07.parseDigits_leftPad",
@@ -68,6 +68,10 @@ META = {
         "Pyoda.C07.reformat_idempotent",
         "Pyoda.C07.isoDate_generic_roundtrip",
         "Pyoda.C07.offsetLong_generic_roundtrip",
+        "Pyoda.C07.datetime_pattern_roundtrip",
+        "Pyoda.C07.isoDateTime_compiles",
+        "Pyoda.C07.isoDateTime_delimited",
+        "Pyoda.C07.isoDateTime_generic_roundtrip",
     ],
     "trusted_base": [
         "float step of _ValueCursor._parse_fraction (int(result * math.pow(10.0, scale - count))) is exact for at most 9 digits (products below 2^53); sampled by suite text.num",
